@@ -4,27 +4,39 @@
     [Checked::float_mpq_to_string] (checked.cc): the float is the dyadic rational n / 2^k
     (n odd or k = 0); the text is the decimal numeral of n * 5^k with a decimal point inserted k
     digits from the right, or "0." followed by zeros when there are not enough digits.  The C++
-    measures "enough digits" with [strlen] of the numeral INCLUDING a leading '-': transcribed as is.
+    measures "enough digits" with [strlen] of the numeral; before the fix that numeral INCLUDED a
+    leading '-' (transcribed as is, selected by a regenerated fact).
     [decimal_of_string] reads back an optionally signed decimal numeral with an optional point
     (the part of [parse_number_part] that such text exercises), as the value m / 10^f. *)
 Require Import String Ascii List Bool Arith ZArith Lia.
-Require Import PPLV.Codec.Tok PPLV.Codec.Num.
+Require Import PPLV.Codec.Tok PPLV.Codec.Num PPLV.gen.Facts_Status.
 Import ListNotations.
 Open Scope string_scope.
 
 Fixpoint zeros (n : nat) : string := match n with O => "" | S m => String "0" (zeros m) end.
 
-(** [float_mpq_to_string] for the value n / 2^k *)
+(** the layout of [float_mpq_to_string], applied to the numeral [buf] of the scaled numerator *)
+Definition place_point (buf : string) (k : nat) : string :=
+  let len := String.length buf in
+  if (k <? len)%nat
+  then substring 0 (len - k) buf ++ String "." (substring (len - k) k buf)
+  else "0." ++ zeros (k - len) ++ buf.
+
+(** [float_mpq_to_string] for the value n / 2^k.  Whether the C++ lays out the digits of |n| and
+    prepends the sign, or lays out the signed numeral as it is (counting '-' as a digit), is the
+    regenerated fact [float_print_sign_separate] (gen/Facts_Status.v). *)
 Definition float_mpq_to_string (n : Z) (k : nat) : string :=
-  match k with
-  | O => Z_to_string n
-  | _ =>
-    let buf := Z_to_string (n * 5 ^ Z.of_nat k) in
-    let len := String.length buf in
-    if (k <? len)%nat
-    then substring 0 (len - k) buf ++ String "." (substring (len - k) k buf)
-    else "0." ++ zeros (k - len) ++ buf
-  end.
+  if float_print_sign_separate then
+    let body := match k with
+                | O => Z_to_string (Z.abs n)
+                | _ => place_point (Z_to_string (Z.abs n * 5 ^ Z.of_nat k)) k
+                end in
+    if (n <? 0)%Z then String "-" body else body
+  else
+    match k with
+    | O => Z_to_string n
+    | _ => place_point (Z_to_string (n * 5 ^ Z.of_nat k)) k
+    end.
 
 (** split at the first '.' *)
 Fixpoint split_dot (s : string) : string * option string :=
@@ -64,11 +76,16 @@ Definition reads_back (n : Z) (k : nat) : bool :=
 
 (** the misprint condition: negative, and the numeral of |n| * 5^k has fewer than k digits *)
 Definition misprinted (n : Z) (k : nat) : bool :=
-  (n <? 0)%Z && (String.length (Z_to_string (Z.abs n * 5 ^ Z.of_nat k)) <? k)%nat.
+  negb float_print_sign_separate
+  && (n <? 0)%Z && (String.length (Z_to_string (Z.abs n * 5 ^ Z.of_nat k)) <? k)%nat.
 
-(** -1/16 is printed "0.-625" *)
-Lemma float_print_refuted : float_mpq_to_string (-1) 4 = "0.-625" /\ reads_back (-1) 4 = false.
-Proof. split; vm_compute; reflexivity. Qed.
+(** -1/16: printed "0.-625" (does not read back) by the sign-as-digit layout, "-0.0625" otherwise *)
+Definition neg_sixteenth_statement : Prop :=
+  if float_print_sign_separate
+  then float_mpq_to_string (-1) 4 = "-0.0625" /\ reads_back (-1) 4 = true
+  else float_mpq_to_string (-1) 4 = "0.-625" /\ reads_back (-1) 4 = false.
+Lemma float_print_decided : neg_sixteenth_statement.
+Proof. vm_compute. split; reflexivity. Qed.
 
 (** Bounded exhaustive characterisation: for every odd numerator |n| < 512 and every k <= 12
     (and every odd integer with k = 0) the text reads back to the same value EXCEPT exactly
@@ -100,5 +117,5 @@ Qed.
 Definition float_print_full : Prop :=
   forall n k, (k = O \/ Z.odd n = true) -> reads_back n k = negb (misprinted n k).
 
-Example misprinted_sat : misprinted (-1) 4 = true /\ misprinted (-1) 1 = false /\ misprinted 3 7 = false.
+Example misprinted_sat : misprinted (-1) 4 = negb float_print_sign_separate /\ misprinted (-1) 1 = false /\ misprinted 3 7 = false.
 Proof. repeat split; vm_compute; reflexivity. Qed.
